@@ -776,8 +776,8 @@ def build_graph(args, N0: float) -> demes.Graph:
             if len(ancestors) == 0:
                 continue
             p_jj = lineage_movements[j][j]
-            if p_jj == 0:
-                # No ancestry left in j.
+            if p_jj == 0 and j in joined:
+                # No ancestry left in j, and j ends here.
                 b.data["demes"][j]["ancestors"] = [f"deme{o + 1}" for o in ancestors]
                 b.data["demes"][j]["proportions"] = proportions
             else:
